@@ -6,7 +6,7 @@
 int clock_consulted;
 static time_t vc_time(time_t *t) { clock_consulted = 1; (void)t; return (time_t)12345; }
 #define time vc_time
-#include "/repo/src/numeric.c"
+#include "numeric.c"
 #undef time
 #include "contracts/numeric.h"
 #ifdef VC_CBMC
